@@ -2,33 +2,35 @@ import Driver.Conv
 import Driver.PtrEng
 import Driver.RangeEng
 import Driver.IndexEng
+import Driver.TokEng
 /-! `rlbox_model_driver`: one operation per line on stdin, one result per line on stdout. -/
 open Driver
 
-def stepLine (line : String) : String :=
-  let t := toks line
-  match Conv.step t with
-  | some r => r
-  | none =>
-  match PtrEng.step t with
-  | some r => r
-  | none =>
-  match RangeEng.step t with
-  | some r => r
-  | none =>
-  match IndexEng.step t with
-  | some r => r
-  | none => "badop"
+structure St where
+  tok : TokEng.St := {}
 
-partial def loop (h : IO.FS.Stream) (out : IO.FS.Stream) : IO Unit := do
+def firstSome (fs : List (List String → Option String)) (t : List String) : Option String :=
+  fs.foldl (fun acc f => match acc with | some r => some r | none => f t) none
+
+def stepLine (s : St) (line : String) : St × String :=
+  let t := toks line
+  match firstSome [Conv.step, PtrEng.step, RangeEng.step, IndexEng.step] t with
+  | some r => (s, r)
+  | none =>
+  match TokEng.step s.tok t with
+  | some (tk, r) => ({ s with tok := tk }, r)
+  | none => (s, "badop")
+
+partial def loop (h : IO.FS.Stream) (out : IO.FS.Stream) (s : St) : IO Unit := do
   let line ← h.getLine
   if line.isEmpty then return ()
   let t := line.trimAscii.toString
-  if t.isEmpty || t.startsWith "#" then loop h out else
-  out.putStrLn (stepLine line)
-  loop h out
+  if t.isEmpty || t.startsWith "#" then loop h out s else
+  let (s', r) := stepLine s line
+  out.putStrLn r
+  loop h out s'
 
 def main : IO Unit := do
   let out ← IO.getStdout
-  loop (← IO.getStdin) out
+  loop (← IO.getStdin) out {}
   out.flush
